@@ -271,7 +271,14 @@ def single_assignments(func_node) -> dict:
             for t in assigned_targets(st):
                 if isinstance(t, ast.Name):
                     seen.setdefault(t.id, []).append(None)
-    return {k: v[0] for k, v in seen.items() if v[0] is not None and all(x is not None and norm(x) == norm(v[0]) for x in v)}
+    # a name whose object is mutated in place (items.append(x), d[k] = v) does not stand for its initial expression
+    mutated = set()
+    for n in walk_no_nested(func_node):
+        if isinstance(n, ast.Call) and isinstance(n.func, ast.Attribute) and isinstance(n.func.value, ast.Name) and n.func.attr in ("append", "extend", "insert", "pop", "remove", "clear", "update", "add", "setdefault", "sort", "reverse"):
+            mutated.add(n.func.value.id)
+        if isinstance(n, ast.Subscript) and isinstance(n.ctx, (ast.Store, ast.Del)) and isinstance(n.value, ast.Name):
+            mutated.add(n.value.id)
+    return {k: v[0] for k, v in seen.items() if k not in mutated and v[0] is not None and all(x is not None and norm(x) == norm(v[0]) for x in v)}
 
 
 def expand(func_node, expr, depth=3) -> str:
